@@ -10,6 +10,7 @@ def handleGc (ws : List String) : String :=
   match mkGcInfo m with
   | none => "panic"
   | some g =>
+    if !gcWF g then "reference-out-of-range" else
     if !usedFinished g then "worklist-fuel-exhausted" else
     match gcRoundTrip m with
     | some o => showModule o
